@@ -110,7 +110,15 @@ func LoopScen(r *fw.Rand) *Scenario {
 	}
 	flows := []M{d.Flow("Loop", ftype, all...)}
 	if withChild {
-		if childWaits {
+		if childWaits && r.Chance(0.4) {
+			// a menu that enters itself after every answer: runs of one flow stacked on each other under a run of another flow
+			// (the loop flow); an answer of "no" — or an expiration — unwinds them
+			leave, again := d.Cat("Leave", "c1:leave"), d.Cat("Again", "c1:again")
+			wnode := d.Node("c1", nil, d.Switch("@input.text", []M{leave, again}, again, []M{{"type": "has_any_word", "arguments": []string{"no wrong"}, "category_uuid": leave["uuid"]}}, M{"type": "msg"}, "Menu"),
+				d.Exit("c1:leave", ""), d.Exit("c1:again", "c2"))
+			flows = append(flows, d.Flow("Child", ftype, d.Node("c0", []any{say("c0:say")}, nil, d.Exit("c0:x", "c1")), wnode,
+				d.Node("c2", []any{d.Enter("c2:enter", "Child", r.Chance(0.2))}, nil, d.Exit("c2:x", fw.Pick(r, []string{"", "c1"})))))
+		} else if childWaits {
 			flows = append(flows, d.Flow("Child", ftype, d.Node("c0", []any{say("c0:say")}, nil, d.Exit("c0:x", "c1")), d.WaitNode("c1", "", nil)))
 		} else {
 			flows = append(flows, d.Flow("Child", ftype, d.Node("c0", []any{say("c0:say"), d.Action("c0:r", "set_run_result", M{"name": "Child Round", "value": "@parent.results", "category": "X"})}, nil, d.Exit("c0:x", ""))))
